@@ -264,6 +264,8 @@ parseinit(struct scope *s, struct type *t)
 				expr = exprassign(expr, t);
 				goto add;
 			}
+			if (!p.cur)
+				error(&tok.loc, "initializer for aggregate type must be enclosed in braces");
 			focus(&p);
 		}
 	add:
